@@ -50,6 +50,10 @@ def lists(obj):
         add("props", lambda: [(p.name, p.value, p.priority) for p in obj.getProperties(all=True)])
     if hasattr(obj, "selectorList"):
         add("selectors", lambda: [s.selectorText for s in obj.selectorList])
+    if isinstance(obj, css.Property):
+        add("property", lambda: (obj.name, obj.literalname, obj.value, obj.priority, obj.literalpriority))
+    if isinstance(obj, css.CSSStyleDeclaration):
+        add("literal", lambda: [(p.literalname, p.literalpriority) for p in obj.getProperties(all=True)])
     if isinstance(obj, css.SelectorList):
         add("selectors", lambda: [s.selectorText for s in obj])
     if hasattr(obj, "media") and obj.media is not None:
@@ -87,7 +91,33 @@ def by_type(sheet, typestring):
 def build(cell):
     """-> (target, owner rule or None, sheet or None) or None when the cell has no rendering"""
     c, prior, attach, ro = cell["cls"], cell["prior"], cell["attach"], cell["readonly"]
-    pop = prior == "populated"
+    pop = prior in ("populated", "odd")
+    if prior == "odd":
+        if ro:
+            return None
+        if attach == "insheet":
+            if c not in ("sheet", "declaration", "property", "mediarule", "pagerule"):
+                return None
+            s = cssutils.CSSParser(fetcher=fetcher).parseString(
+                '@charset "utf-8";\n@import "x.css";\na, b { left: 0 !IMPORTANT; top: 1px !im\\portant }\n'
+                '@media print { c { left: 0 } d { top: 0 } e { top: 1px } }\n@page :first { margin: 0; @top-left { left: 0 } @top-right { left: 0 } }\n',
+                href="http://example.com/sheet.css")
+            if c == "sheet":
+                return s, None, s
+            if c in ("mediarule", "pagerule"):
+                r = by_type(s, "MEDIA_RULE" if c == "mediarule" else "PAGE_RULE")
+                return r, r, s
+            st = by_type(s, "STYLE_RULE")
+            return (st.style if c == "declaration" else st.style.getProperties(all=True)[0]), st, s
+        if c == "property":
+            return css.CSSStyleDeclaration(cssText="left: 1px !IMPORTANT").getProperties(all=True)[0], None, None
+        if c == "declaration":
+            return css.CSSStyleDeclaration(cssText="left: 0 !IMPORTANT; top: 1px !im\\portant"), None, None
+        if c == "medialist":
+            ml = MediaList(mediaText="screen, print")
+            ml[0] = "all"           # 'all, print': only item assignment produces this list
+            return ml, None, None
+        return None
     if ro and attach == "insheet":
         return None     # read-only objects are created through the constructor flag
     if attach == "insheet":
@@ -169,9 +199,9 @@ def build(cell):
 BAD = {
     ("sheet", "cssText"): {"immediate": "}{", "late": 'a { left: 0 } b { top: 1px } @import "x";', "nested": "a { left: 0 } @media print { b { top: } }",
                            "hierarchy": 'a { left: 0 } @charset "utf-8";'},
-    ("sheet", "insertRule"): {"immediate": ("$$$", 0), "late": ("a { left: 0; top: }", 0), "nested": ("@media print { a { left: } }", 0),
+    ("sheet", "insertRule"): {"list": ("#list:x { left: 0 } @page { @bottom-left { left: 0 } } z { top: 0 }", 2), "immediate": ("$$$", 0), "late": ("a { left: 0; top: }", 0), "nested": ("@media print { a { left: } }", 0),
                               "hierarchy": ('@import "x";', "end"), "index": ("a { left: 0 }", 99)},
-    ("sheet", "add"): {"immediate": "$$$", "late": "a { left: 0 } b { top: 0 }", "nested": "@media print { a { left: } }"},
+    ("sheet", "add"): {"list": "#list:@charset \"ascii\"; x { left: 0 } @page { @bottom-left { left: 0 } } z { top: 0 }", "immediate": "$$$", "late": "a { left: 0 } b { top: 0 }", "nested": "@media print { a { left: } }"},
     ("sheet", "deleteRule"): {"index": 99, "hierarchy": 0},
     ("sheet", "encoding"): {"immediate": "no-such-encoding", "late": "INVALID ENCODING"},
     ("sheet", "nsset"): {"hierarchy": ("p", "other")},
@@ -182,7 +212,7 @@ BAD = {
     ("stylerule", "styleText"): {"immediate": "}", "late": "bottom: 0; top: }", "nested": "bottom: 0; color: rgb("},
     ("mediarule", "cssText"): {"immediate": "@media 3d { x { left: 0 } }", "late": '@media tv { x { left: 0 } @import "x"; }',
                                "nested": "@media tv { x { left: } }", "wrongtype": "x { left: 0 }", "hierarchy": '@media tv { @charset "utf-8"; }'},
-    ("mediarule", "insertRule"): {"immediate": ("$$", 0), "nested": ("x { left: }", 0), "hierarchy": ('@import "x";', 0), "index": ("x { left: 0 }", 99)},
+    ("mediarule", "insertRule"): {"list": ("#list:x { left: 0 } @font-face { font-family: y } z { top: 0 }", 1), "immediate": ("$$", 0), "nested": ("x { left: }", 0), "hierarchy": ('@import "x";', 0), "index": ("x { left: 0 }", 99)},
     ("mediarule", "add"): {"immediate": "$$", "nested": "x { left: }", "hierarchy": '@namespace p "u";'},
     ("mediarule", "deleteRule"): {"index": 99},
     ("mediarule", "mediaText"): {"immediate": "3d", "late": "braille, 3d", "nested": "braille, screen and (color"},
@@ -190,7 +220,7 @@ BAD = {
                               "wrongtype": "x { left: 0 }"},
     ("pagerule", "selectorText"): {"immediate": "$", "late": ":left $"},
     ("pagerule", "styleText"): {"immediate": "}", "late": "bottom: 0; top: }"},
-    ("pagerule", "insertRule"): {"immediate": ("$$", 0), "hierarchy": ("@media print { x { left: 0 } }", 0), "index": ("@top-right { left: 0 }", 99),
+    ("pagerule", "insertRule"): {"list": ("#list:@page { @bottom-left { left: 0 } } x { left: 0 } @page { @bottom-right { left: 0 } }", 1), "immediate": ("$$", 0), "hierarchy": ("@media print { x { left: 0 } }", 0), "index": ("@top-right { left: 0 }", 99),
                                  "nested": ("@top-right { left: }", 0)},
     ("importrule", "cssText"): {"immediate": "@import;", "late": '@import "y.css" braille, 3d;', "wrongtype": "x { left: 0 }"},
     ("importrule", "mediaText"): {"immediate": "3d", "late": "braille, 3d"},
@@ -231,7 +261,7 @@ BAD = {
     ("medialist", "append"): {"immediate": "3d", "late": "braille and", "nested": "screen and (color"},
     ("selector", "selectorText"): {"immediate": "$", "late": "x y $", "nested": "x:not(", "hierarchy": "zz|x"},
     ("medialist", "mediaText"): {"immediate": "3d", "late": "braille, 3d", "nested": "braille, screen and (color"},
-    ("medialist", "appendMedium"): {"immediate": "3d", "late": "braille and", "nested": "screen and (color"},
+    ("medialist", "appendMedium"): {"hierarchy": "print", "immediate": "3d", "late": "braille and", "nested": "screen and (color"},
     ("medialist", "deleteMedium"): {"immediate": "embossed"},
     ("mediaquery", "mediaText"): {"immediate": "3d", "late": "braille and (color) x", "nested": "braille and (color"},
     ("mediaquery", "mediaType"): {"immediate": "nonsense"},
@@ -261,8 +291,26 @@ GOOD = {  # well-formed inputs, used for read-only targets (only the read-only g
 }
 
 
+def rule_list(spec):
+    """'#list:<sheet text>' -> the rule objects of that sheet, margin rules taken out of their @page rules (so that a member
+    can be something that is not allowed at the destination)"""
+    src = cssutils.parseString(spec[len("#list:"):])
+    out = css.CSSRuleList()
+    for r in src.cssRules:
+        if r.type == r.PAGE_RULE and r.cssRules.length and not r.style.length:
+            for m in r.cssRules:
+                list.append(out, m)
+        else:
+            list.append(out, r)
+    return out
+
+
 def call(target, cls, mut, arg):
     t = target
+    if isinstance(arg, tuple) and isinstance(arg[0], str) and arg[0].startswith("#list:"):
+        arg = (rule_list(arg[0]),) + tuple(arg[1:])
+    elif isinstance(arg, str) and arg.startswith("#list:"):
+        arg = rule_list(arg)
     if mut == "cssText":
         return outcome(lambda: setattr(t, "cssText", arg))
     if mut == "insertRule":
